@@ -1,12 +1,41 @@
 import XModel.Parse
+import XModel.KeyPrint
+import XModel.KeyText
 /-!
 # C06 — references are equal, and hash equally, exactly when they denote the same path
-`BaseRef.__eq__` compares the printed forms; the printer model is `Parse.print` (token level: a key is
-one literal token — Python's guarantee that `repr(k)` lexes as one literal and evaluates back to `k`
-is the recorded assumption, exercised on every run by tokenising the real printed text).
+`BaseRef.__eq__` compares the printed forms (`str(self) == str(other)`), so `refEq` is DEFINED as equality of the
+printed forms and the property is the **injectivity of the printer** on access paths: different paths must never
+print alike (the direction "same path → equal" is congruence).
+
+Two printer models, two levels:
+* token level — `Parse.print` for the whole expression language with `str | int` keys (`C06_expr_eq_iff`,
+  `C06_eq_iff_same_path`), and `KeyPrint.printPath` for access paths with the EXTENDED key language `KeyX`: strings, ints,
+  bools, floats, `None` and nested tuples of these (`C06_key_print_injective`, `C06_path_print_injective`;
+  `C06_extends_parse_paths`: on the paths of `Parse` it is the same printer).  A string key is one literal token, a float
+  key one NUMBER token carrying the text of `repr`: that `repr(k)` lexes so and that distinct strings / floats give
+  distinct tokens is Python's guarantee, the recorded assumption, exercised on every run by tokenising the real text;
+* character level — `KeyText.pathText`, the text itself: quoting and escaping of string keys as `repr(str)` does
+  (keys with quotes, brackets, "looks like two steps" are covered), decimal ints, `True` / `False` / `None`, tuples with
+  `", "` and the 1-tuple's trailing comma, float texts uninterpreted under the hypothesis `floatTextOK` (what `repr`
+  writes for finite floats), labels and attribute names identifiers (`C06_key_text_injective`,
+  `C06_path_text_injective`; both hypotheses shown necessary).
+
+What the seeded defects were, as non-injective printers: `KeyPrint.printKeyNoParen` (tuples without parentheses:
+`('a',)` = `'a'`, `(1, (2, 3))` = `(1, 2, 3)`), `KeyPrint.printKeySixDigits` (`0.30000000000000004` = `0.3`),
+`KeyText.naivePathText` (unescaped quotes: the key `a']['b` = the steps `a`, `b`).
+
+Python's `dict` identifies the keys `1`, `True`, `1.0`; the library's equality, being textual, keeps `c[1]`, `c[True]`,
+`c[1.0]` apart although they select the same entry (`KeyPrint.distinct_scalars`).  This is the library's behaviour; there
+is deliberately NO theorem "equal iff they select the same dictionary entry" — it is false of the library.
+
+OUTSIDE the model (oracle only): `bytes` keys, numpy scalars (their `repr` depends on the numpy version: `1` or
+`np.int64(1)`), `inf` / `nan`, non-printable characters in string keys (`\xhh` escapes), arbitrary objects as keys
+(their `repr` is whatever the class defines; objects with the default `repr` print their address), abbreviated `repr`s;
+non-identifier labels / attribute names (the label `a.b` does print like `a` `.b`: `KeyText.label_needs_ident`);
+`__hash__` itself (`C06_hash_of_eq` is content-free).
 -/
 namespace Properties.C06
-open Parse
+open Parse KeyPrint
 
 /-- equality as the library computes it: equal printed forms -/
 def refEq (p q : Expr) : Prop := print p = print q
@@ -48,5 +77,81 @@ theorem C06_hash_of_eq {H : Type} (hash : Expr → H) (p q : Expr) (hp : IsPath 
 /- non-vacuity: `c['a']['b']` vs `c["a']['b"]` (one key that looks like two steps) are different paths
     with different token lists -/
 #guard print (.item (.item (.root "c") (.str "a")) (.str "b")) != print (.item (.root "c") (.str "a']['b"))
+
+/-! ### the extended key language (`XModel/KeyPrint.lean`, `XModel/KeyText.lean`) -/
+
+/-- equality of references as the library computes it, on access paths with extended keys: equal printed forms
+    (token level) -/
+def refEqX (p q : PathX) : Prop := printPath p = printPath q
+
+/-- `repr(key)` determines the key — for strings, ints, bools, floats (carried by the text of their `repr`), `None` and
+    nested tuples of these, at the token level (no hypothesis: every `KeyX` is well formed there).  In particular
+    `('a',)` ≠ `'a'`, `(1, (2, 3))` ≠ `((1, 2), 3)` ≠ `(1, 2, 3)`, `1` ≠ `True` ≠ `'1'` ≠ `1.0` as printed keys. -/
+theorem C06_key_print_injective (k₁ k₂ : KeyX) : printKeyX k₁ = printKeyX k₂ ↔ k₁ = k₂ :=
+  ⟨printKeyX_injective k₁ k₂, fun h => by rw [h]⟩
+
+/-- `refEqX` stays DEFINED as equality of the printed forms; the theorem is exactly "print equality implies same
+    path" (and conversely, by congruence) for the extended key language: two references compare equal exactly when they
+    have the same container label and the same item / attribute steps with the same keys.  Hash agreement of equal
+    references then follows for any hash that is a function of that structure — the library hashes
+    `(type name, owner, key)`, the structure it prints — which is `C06_hash_of_eq`, still content-free. -/
+theorem C06_path_print_injective (p q : PathX) : refEqX p q ↔ p = q :=
+  ⟨printPath_injective p q, fun h => by rw [h]; rfl⟩
+
+theorem isPath_pathOf : ∀ e : Expr, IsPath e → ∃ p, pathOf e = some p
+  | .root l, _ => ⟨_, rfl⟩
+  | .item o k, h => by
+    obtain ⟨p, hp⟩ := isPath_pathOf o h
+    exact ⟨p.snoc (.item (embedKey k)), by simp [pathOf, hp]⟩
+  | .attr o a, h => by
+    obtain ⟨p, hp⟩ := isPath_pathOf o h
+    exact ⟨p.snoc (.attr a), by simp [pathOf, hp]⟩
+  | .lit _, h => absurd h (by simp [IsPath])
+  | .bin _ _ _, h => absurd h (by simp [IsPath])
+  | .un _ _, h => absurd h (by simp [IsPath])
+  | .call _ _, h => absurd h (by simp [IsPath])
+  | .flit _ _, h => absurd h (by simp [IsPath])
+  | .callkw _ _ _, h => absurd h (by simp [IsPath])
+
+/-- the extended printer EXTENDS `Parse.print`: every path `e` of `Parse` (keys `str | int`) is an extended path
+    `pathOf e`, printed by `printPath` with the same tokens as `Parse.print e`, and no other expression has that
+    extended path. -/
+theorem C06_extends_parse_paths (e : Expr) (he : IsPath e) :
+    ∃ p : PathX, pathOf e = some p ∧ printPath p = print e ∧ ∀ e', pathOf e' = some p → e' = e := by
+  obtain ⟨p, hp⟩ := isPath_pathOf e he
+  exact ⟨p, hp, pathOf_print e p hp, fun e' h' => pathOf_injective e' e p h' hp⟩
+
+/-- hence the path part of `C06_eq_iff_same_path` is the special case of `C06_path_print_injective` (proved here
+    from it, without `Parse.print_injective`) -/
+theorem C06_eq_iff_same_path_from_extension (p q : Expr) (hp : IsPath p) (hq : IsPath q) : refEq p q ↔ p = q := by
+  obtain ⟨P, hP⟩ := isPath_pathOf p hp
+  obtain ⟨Q, hQ⟩ := isPath_pathOf q hq
+  exact ⟨parse_paths_special_case p q P Q hP hQ, fun h => by rw [h]; rfl⟩
+
+/-- character level: the TEXT of `repr(key)` determines the key.  `KeyOK`: every float text in the key is as `repr`
+    writes finite floats (`floatTextOK`: starts with a digit, digits and `.e+-` only, at least one non-digit) — needed,
+    `KeyText.float_text_needs_ok`.  String keys are arbitrary (the model of `repr(str)` escapes backslash, the quote,
+    newline, carriage return, tab; it is faithful on printable strings). -/
+theorem C06_key_text_injective (k₁ k₂ : KeyX) (h₁ : KeyText.KeyOK k₁) (h₂ : KeyText.KeyOK k₂) :
+    KeyText.keyText k₁ = KeyText.keyText k₂ ↔ k₁ = k₂ :=
+  ⟨KeyText.keyText_injective k₁ k₂ h₁ h₂, fun h => by rw [h]⟩
+
+/-- character level: `str(a) == str(b)` exactly when `a` and `b` are the same access path.  `PathOK`: label and
+    attribute names are identifiers (needed, `KeyText.label_needs_ident`), keys are `KeyOK`. -/
+theorem C06_path_text_injective (p q : PathX) (hp : KeyText.PathOK p) (hq : KeyText.PathOK q) :
+    KeyText.pathText p = KeyText.pathText q ↔ p = q :=
+  ⟨KeyText.pathText_injective p q hp hq, fun h => by rw [h]⟩
+
+/- non-vacuity: a path with a 1-tuple, a negative int, a float and `None` as keys; its hypotheses hold, and dropping
+   the 1-tuple's comma-and-parentheses would be a different path with a different print -/
+example : KeyText.PathOK pathExample := by
+  refine ⟨by decide, ?_⟩
+  simp [pathExample, KeyText.StepsOK, KeyText.StepOK, KeyText.KeyOK, KeyText.KeysOK]
+  decide
+example : ¬ refEqX ⟨"c", [.item (.tuple [.str "a"])]⟩ ⟨"c", [.item (.str "a")]⟩ := by
+  rw [C06_path_print_injective]; simp
+example : ∃ p, pathOf (.attr (.item (.root "c") (.str "a")) "x") = some p ∧
+    printPath p = print (.attr (.item (.root "c") (.str "a")) "x") :=
+  let ⟨p, h1, h2, _⟩ := C06_extends_parse_paths _ (by simp [IsPath]); ⟨p, h1, h2⟩
 
 end Properties.C06
